@@ -5,17 +5,28 @@
    Clauses of the property text:
    (a) "each word, phrase or range appears exactly once as a leaf clause addressed to the fully
        qualified field, carrying the term's own text ... kind follows the documented table ...
-       fuzziness / slop / boost ... per-field options merged in, its _name is the name of the nearest
-       named enclosing element"                                       -> C06_leaves (multiset of the
-       leaf clauses of the JSON = clauses of EsSpec.expected_leaves, which is computed directly on the
-       tree), C06_eleaves (the same in document order on the E-tree) and C06_leaf_names (the names alone,
-       against the direct reading EsSpec.expected_names).  FULL since the repair of F16
-       (simplify_if_same spliced an operand of the operation's own class without looking at its name, so
-       the name of an operation nested directly in an operation of the same class — or of `+` under `+` —
-       never reached its elements; the repaired code keeps a same-class operand that has a name).  The
-       theorems of earlier rounds, guarded by no_named_flattened, are kept as corollaries
-       (C06_leaves_partial, C06_eleaves_partial); the refutations that relied on the defect were deleted
-       with it and replaced by regression examples on the former witnesses (C06_F16_regression_plus, C06_F16_regression_and).
+       fuzziness / slop / boost from ~ and ^ ... per-field options merged in, its _name is the name of the
+       nearest named enclosing element"
+       -> C06_leaves_statement (multiset of the leaf clauses of the JSON = clauses of
+       EsSpec.expected_leaves, which is computed on the tree and the declared paths alone: a ~ / ^ applies to
+       the single leaf below it through parentheses and field wrappers), C06_eleaves_statement (the same in
+       document order on the E-tree) and C06_leaf_names (the names alone, against the direct reading
+       EsSpec.expected_names; FULL).
+       The unguarded statements are FALSE of the faithful model: F22 — a ^ / ~ placed above a field that gets
+       a nested clause is dropped by the builder: `(a.b:x)^2` with a.b nested gives the clause of `a.b:x`
+       without its boost, while `a.b:x^2`, `(c:x)^2` keep it (C06_leaves_refuted_F22,
+       C06_eleaves_refuted_F22; witness replayed on the real code).  They are proved under the executable guard
+       EsSpec.modifier_over_nested cfg t = false (C06_leaves_partial, C06_eleaves_partial), which excludes
+       exactly the trees with a ^ / ~ separated from its single leaf by a field that crosses a nested
+       boundary; C06_modifier_guard_needed shows the guard cannot be dropped, C06_guard_accepts_boosted_nested
+       that a boosted nested field in the accepted spelling `a.b:x^2` is inside it.
+       History: until that audit the expected leaves asked the builder's own split_nested whether a modifier
+       reaches its leaf, so the deviation was invisible; that builder-following reading now lives in
+       proofs/EsProofs.v (xl_b) as a proof device only.
+       F16 (names lost by simplify_if_same) was repaired in the code (d55d914): regression examples
+       C06_F16_regression_plus / _and on the former witnesses.
+       "zero_terms_query 'all' only directly under a conjunction": part of expected_leaves (tagz / direct_leaf
+       / ekind); the constants are pinned by C06_tie_ztq.
    (b) "the result is plain JSON data"                                -> C06_plain_json (full)
    (c) "identical on every call of the same or of a fresh builder"   -> C06_calls_independent in the
        pure model; what ties it to the code: the generated facts C06_tie_* (class-level defaults are
@@ -34,6 +45,18 @@ Lemma C06_tie_builder_eclasses_standard : gen_builder_eclasses_standard = true.
 Proof. vm_compute. reflexivity. Qed.
 Lemma C06_tie_methods_known : builder_methods_known = true /\ chk_methods_known = true.
 Proof. vm_compute. split; reflexivity. Qed.
+
+(* zero_terms_query: "all" is what an EMust pushes onto its direct leaf items, "none" what an EMustNot pushes
+   and what a leaf keeps by default (alone, under an EShould / EBoolOperation, inside a nested clause); the
+   constants are generated from luqum/elasticsearch/tree.py on every run *)
+Definition C06_tie_ztq_statement : Prop :=
+  gen_EMust_zero_terms_query = k_all /\ gen_EMustNot_zero_terms_query = k_none /\
+  gen_default_zero_terms_query = k_none /\
+  ztq_of_op EKMust = Some k_all /\ ztq_of_op EKMustNot = Some k_none /\
+  ztq_of_op EKShould = None /\ ztq_of_op EKBool = None /\ ztq_default = k_none /\
+  op_key EKMust = k_must /\ op_key EKShould = k_should /\ op_key EKMustNot = k_must_not.
+Lemma C06_tie_ztq : C06_tie_ztq_statement.
+Proof. vm_compute. repeat split; reflexivity. Qed.
 
 (* ---- history clause: "identical on every call of the same or of a fresh builder" *)
 (* call number k of a builder instance returns what a fresh builder returns for that tree *)
@@ -166,38 +189,131 @@ Definition C06_leaves_statement : Prop :=
   forall cfg t j, supported t = true -> wf_config cfg = true -> options_not_reserved cfg = true ->
     build cfg t = ROk j -> Permutation (leaves j) (expected_clauses cfg t).
 
-Theorem C06_leaves : C06_leaves_statement.
-Proof.
-  intros cfg t j Hs _ Hk Hb.
-  exact (build_leaves cfg t j Hs (options_kinds_not_reserved cfg t Hk) Hb).
-Qed.
-
-(* the statement of earlier rounds, under the guard that removed exactly F16: now a corollary *)
-Definition C06_leaves_partial_statement : Prop :=
-  forall cfg t j, supported t = true -> wf_config cfg = true -> options_not_reserved cfg = true ->
-    no_named_flattened t = true ->
-    build cfg t = ROk j -> Permutation (leaves j) (expected_clauses cfg t).
-
-Theorem C06_leaves_partial : C06_leaves_partial_statement.
-Proof.
-  intros cfg t j Hs Hwf Hk _ Hb. exact (C06_leaves cfg t j Hs Hwf Hk Hb).
-Qed.
-
 (* in document order, on the E-tree the JSON is rendered from (the json of a BoolOperation lists its
    must clauses first, so only the multiset survives in the JSON) *)
 Definition C06_eleaves_statement : Prop :=
   forall cfg t e, supported t = true ->
     build_etree cfg t = ROk e -> eleaves e = expected_leaves cfg t.
 
-Theorem C06_eleaves : C06_eleaves_statement.
-Proof. intros cfg t e Hs Hb. exact (build_etree_leaves cfg t e Hs Hb). Qed.
+(* F22.  nested_fields={'a': ['b']};  (a.b:x)^2  = Boost(Group(SearchField('a.b', Word('x'))), 2) *)
+Definition cfg_n : es_config :=
+  mkEsConfig DShould [116;101;120;116]%N [] (SDict [([97]%N, SList [[98]%N])]) SNone SNone [] false.
+Definition two : dec := mkDec false 2 0.
+Definition t_F22 : item :=
+  Boost meta0 (Grp KGroup meta0 (SearchField meta0 [97;46;98]%N (Term KWord meta0 [120]%N))) two false.
+(* a.b:x^2 = SearchField('a.b', Boost(Word('x'), 2)) : the accepted spelling *)
+Definition t_boost_inside : item :=
+  SearchField meta0 [97;46;98]%N (Boost meta0 (Term KWord meta0 [120]%N) two false).
+(* (a:(b:x))^2 : the field that crosses is the OUTER one, still below the modifier *)
+Definition t_F22_chain : item :=
+  Boost meta0 (Grp KGroup meta0 (SearchField meta0 [97]%N (Grp KFieldGroup meta0
+      (SearchField meta0 [98]%N (Term KWord meta0 [120]%N))))) two false.
+(* a:((b:x)^2) : the modifier is below the field that crosses *)
+Definition t_boost_between : item :=
+  SearchField meta0 [97]%N (Grp KFieldGroup meta0 (Grp KGroup meta0
+      (Boost meta0 (Grp KGroup meta0 (SearchField meta0 [98]%N (Term KWord meta0 [120]%N))) two false))).
+
+(* the match clause on a.b, with / without the boost, and the nested clause around it *)
+Definition ab_clause (boost : option dec) : json :=
+  JObj [(k_match, JObj [([97;46;98]%N,
+     JObj (match boost with Some d => [(k_boost, JNum d)] | None => [] end ++
+           [(k_query, JStr [120]%N); (k_zero_terms_query, JStr k_none)]))])].
+Definition nested_a (j : json) : json := JObj [(k_nested, JObj [(k_path, JStr [97]%N); (k_query, j)])].
+
+(* what the model (= the code, replayed) answers, and what the property expects *)
+Example C06_F22_witness :
+  supported t_F22 = true /\ wf_config cfg_n = true /\ options_not_reserved cfg_n = true /\
+  modifier_over_nested cfg_n t_F22 = true /\
+  build cfg_n t_F22 = ROk (nested_a (ab_clause None)) /\
+  expected_clauses cfg_n t_F22 = [ab_clause (Some two)] /\
+  build cfg_n t_boost_inside = ROk (nested_a (ab_clause (Some two))) /\
+  expected_clauses cfg_n t_boost_inside = [ab_clause (Some two)].
+Proof. vm_compute. repeat split; reflexivity. Qed.
+
+Theorem C06_leaves_refuted_F22 : ~ C06_leaves_statement.
+Proof.
+  intros H.
+  assert (Hb : build cfg_n t_F22 = ROk (nested_a (ab_clause None))) by (vm_compute; reflexivity).
+  specialize (H cfg_n t_F22 _ eq_refl eq_refl eq_refl Hb).
+  assert (Hl : leaves (nested_a (ab_clause None)) = [ab_clause None]) by (vm_compute; reflexivity).
+  assert (He : expected_clauses cfg_n t_F22 = [ab_clause (Some two)]) by (vm_compute; reflexivity).
+  rewrite Hl, He in H. apply Permutation_length_1 in H. vm_compute in H. discriminate H.
+Qed.
+
+Theorem C06_eleaves_refuted_F22 : ~ C06_eleaves_statement.
+Proof.
+  intros H. destruct (build_etree cfg_n t_F22) as [e|] eqn:Hb; [|vm_compute in Hb; discriminate Hb].
+  specialize (H cfg_n t_F22 e eq_refl Hb). vm_compute in Hb. inversion Hb; subst e.
+  vm_compute in H. discriminate H.
+Qed.
+
+(* the statements under the guard that excludes exactly F22's class *)
+Definition C06_leaves_partial_statement : Prop :=
+  forall cfg t j, supported t = true -> wf_config cfg = true -> options_not_reserved cfg = true ->
+    modifier_over_nested cfg t = false ->
+    build cfg t = ROk j -> Permutation (leaves j) (expected_clauses cfg t).
+
+Theorem C06_leaves_partial : C06_leaves_partial_statement.
+Proof.
+  intros cfg t j Hs _ Hk Hm Hb.
+  exact (build_leaves cfg t j Hs (options_kinds_not_reserved cfg t Hk) Hm Hb).
+Qed.
 
 Definition C06_eleaves_partial_statement : Prop :=
-  forall cfg t e, supported t = true -> no_named_flattened t = true ->
+  forall cfg t e, supported t = true -> modifier_over_nested cfg t = false ->
     build_etree cfg t = ROk e -> eleaves e = expected_leaves cfg t.
 
 Theorem C06_eleaves_partial : C06_eleaves_partial_statement.
-Proof. intros cfg t e Hs _ Hb. exact (C06_eleaves cfg t e Hs Hb). Qed.
+Proof. intros cfg t e Hs Hm Hb. exact (build_etree_leaves cfg t e Hs Hm Hb). Qed.
+
+(* the guard cannot be dropped: a supported tree and a well-formed configuration outside the guard on which the
+   conclusion fails.  (The guard is not necessary on EVERY tree it excludes: when the dropped modifier repeats
+   a value the leaf already has — `(a.b:x^2)^2` — nothing is lost.) *)
+Definition C06_modifier_guard_needed_statement : Prop :=
+  exists cfg t j, supported t = true /\ wf_config cfg = true /\ options_not_reserved cfg = true /\
+    modifier_over_nested cfg t = true /\ build cfg t = ROk j /\
+    ~ Permutation (leaves j) (expected_clauses cfg t).
+
+Theorem C06_modifier_guard_needed : C06_modifier_guard_needed_statement.
+Proof.
+  exists cfg_n, t_F22, (nested_a (ab_clause None)). repeat split; try (vm_compute; reflexivity).
+  intros H.
+  assert (Hl : leaves (nested_a (ab_clause None)) = [ab_clause None]) by (vm_compute; reflexivity).
+  assert (He : expected_clauses cfg_n t_F22 = [ab_clause (Some two)]) by (vm_compute; reflexivity).
+  rewrite Hl, He in H. apply Permutation_length_1 in H. vm_compute in H. discriminate H.
+Qed.
+
+(* the class, on the spellings replayed on the real code: lost above the field that crosses, kept below *)
+Example C06_F22_class :
+  modifier_over_nested cfg_n t_F22 = true /\ modifier_over_nested cfg_n t_F22_chain = true /\
+  modifier_over_nested cfg_n t_boost_inside = false /\ modifier_over_nested cfg_n t_boost_between = false /\
+  build cfg_n t_F22_chain = ROk (nested_a (ab_clause None)) /\
+  build cfg_n t_boost_between = ROk (nested_a (ab_clause (Some two))) /\
+  (* no nested field declared: nothing is in the class *)
+  modifier_over_nested (mkEsConfig DShould [116;101;120;116]%N [] SNone SNone SNone [] false) t_F22 = false.
+Proof. vm_compute. repeat split; reflexivity. Qed.
+
+(* non-vacuity of the guard: a boosted nested field in the accepted spelling is inside it, and the theorem's
+   conclusion is about a clause that carries the boost *)
+Example C06_guard_accepts_boosted_nested :
+  supported t_boost_inside = true /\ wf_config cfg_n = true /\ options_not_reserved cfg_n = true /\
+  modifier_over_nested cfg_n t_boost_inside = false /\
+  exists j, build cfg_n t_boost_inside = ROk j /\ leaves j = [ab_clause (Some two)] /\
+            expected_clauses cfg_n t_boost_inside = [ab_clause (Some two)].
+Proof. repeat split; try (vm_compute; reflexivity). eexists. repeat split; vm_compute; reflexivity. Qed.
+
+(* zero_terms_query under a conjunction:  c:y AND a.b:x  with a.b nested — "all" on the clause that is a direct item
+   of `must`, "none" on the one inside the nested clause (an item of the nested clause); model and expectation *)
+Definition t_and_nested : item :=
+  Op KAnd meta0 [SearchField meta0 [99]%N (Term KWord meta0 [121]%N);
+                 SearchField meta0 [97;46;98]%N (Term KWord meta0 [120]%N)].
+Definition c_clause_all : json :=
+  JObj [(k_match, JObj [([99]%N, JObj [(k_query, JStr [121]%N); (k_zero_terms_query, JStr k_all)])])].
+Example C06_ztq_direct_items_only :
+  build cfg_n t_and_nested = ROk (must_of [c_clause_all; nested_a (ab_clause None)]) /\
+  expected_clauses cfg_n t_and_nested = [c_clause_all; ab_clause None] /\
+  modifier_over_nested cfg_n t_and_nested = false.
+Proof. vm_compute. repeat split; reflexivity. Qed.
 
 (* ---- clause (b): plain JSON data (every dict has pairwise distinct str keys, values are JSON) —
    for every tree, supported or not *)
@@ -208,16 +324,20 @@ Theorem C06_plain_json : C06_plain_json_statement.
 Proof. intros cfg t j Hwf Hb. exact (build_wf cfg t j Hwf Hb). Qed.
 
 (* ---- non-vacuity of the guards *)
+(* t_tab: a.b:"x  y"~2^3 OR c:w?ld* with a.b nested — proximity and boost on a nested field, inside the guard *)
 Example C06_leaves_nonvacuous :
   supported t_tab = true /\ wf_config cfg_tab = true /\ options_not_reserved cfg_tab = true /\
-  no_named_flattened t_tab = true /\ exists j, build cfg_tab t_tab = ROk j /\ length (leaves j) = 2.
+  modifier_over_nested cfg_tab t_tab = false /\
+  exists j, build cfg_tab t_tab = ROk j /\ length (leaves j) = 2.
 Proof. repeat split; try (vm_compute; reflexivity). eexists. split; vm_compute; reflexivity. Qed.
 
+Print Assumptions C06_tie_ztq.
 Print Assumptions C06_calls_independent.
 Print Assumptions C06_class_defaults_untouched.
 Print Assumptions C06_leaf_names.
-Print Assumptions C06_leaves.
-Print Assumptions C06_eleaves.
+Print Assumptions C06_leaves_refuted_F22.
+Print Assumptions C06_eleaves_refuted_F22.
 Print Assumptions C06_leaves_partial.
 Print Assumptions C06_eleaves_partial.
+Print Assumptions C06_modifier_guard_needed.
 Print Assumptions C06_plain_json.
